@@ -98,7 +98,14 @@ def run_programs(v, wd, exe, progs, tag, focus, read=None, jobs=5, batch_events=
                 p = dict(p, read=read)
             f.write(json.dumps(p) + "\n")
     raw = os.path.join(wd, f"{tag}.raw.ndjson")
-    vlib.harness(exe, ["e57-run", "--progs", pp, "--out", raw])
+    # supervised: a writer or reader call that never returns, or that takes the process down (allocation cap, stack
+    # overflow), is attributed to the program in progress and reported; the run continues behind it
+    aborts = vlib.harness_supervised(exe, ["e57-run", "--progs", pp], raw, len(progs), stall=40)
+    vlib.drop_aborted_runs(raw, {a[0] for a in aborts})
+    for idx, kind, err in aborts:
+        rp = os.path.join(wd, "replay", f"{tag}_abort_{idx}.json"); os.makedirs(os.path.dirname(rp), exist_ok=True)
+        json.dump({"kind": kind, "stderr": err, "program": progs[idx]}, open(rp, "w"))
+        v.violation(f"process-{kind}@{progs[idx]['name']}", rp, f"(the harness process running program {idx} '{progs[idx]['name']}' ended with {kind}: a call did not return or took the process down)")
     tr = os.path.join(wd, f"{tag}.trace.ndjson")
     xmlproj.augment_trace(raw, tr)
     os.remove(raw)
